@@ -43,6 +43,8 @@ def judge(cfg, name, args):
 def _judge(cfg, name, args, variant):
     """returns None or (kind, message); kind in wrong-value | returned-where-python-raises | raised-in-core"""
     ts = "".join(a[0] for a in args)
+    if any(a[0] == "B" and a[2] not in (0, 1) for a in args):
+        return None, None        # not a boolean: no such input exists outside error suppression
     vals = [a[2] for a in args]
     cfg = dict(cfg)
     prog = opgrid.single(cfg, name, args, "ignore" if variant == "ignore" else "normal", inplace=variant == "inplace", alias=variant == "alias")
